@@ -825,3 +825,12 @@ package helper
 //@ requires[C18] P >= 1 && k >= 0 && k + P <= n && (forall j :: 0 <= j && j < n ==> b[j] == lam * a[j])
 //@ ensures[C18] smaS(b, P)[k] == lam * smaS(a, P)[k] && winS(b, P)[k] == lam * winS(a, P)[k]
 //@ use smaS_scale(a, b, lam, P, k)
+//@ lemma div_div_pscale(lam real, d real, w real, r real)
+//@ requires[C18] lam != 0 && r != 0 && w != 0
+//@ ensures[C18] (lam * d) / (w / (lam * r)) == lam * lam * (d / (w / r))
+//@ lemma div_div_vscale(mu real, d real, w real, r real)
+//@ requires[C18] mu != 0 && r != 0 && w != 0
+//@ ensures[C18] d / ((mu * w) / r) == (1 / mu) * (d / (w / r))
+//@ lemma sq_pos(x real)
+//@ requires[C18] x != 0
+//@ ensures[C18] x * x > 0 && (x > 0 ==> 1 / x > 0)
